@@ -222,6 +222,10 @@ type State struct {
 	foreign [][2]int64
 	regionLen map[int64]*Term  // length of the tracked content of regionSeq regions
 	lenAlias  map[*Term]*Term // names introduced for make() lengths -> the length expression
+	// ghost for the assumed stdlib contract  strconv.ParseFloat(string(json.Marshal(x)), 64) == x
+	// (finite float64 x): byte regions / strings known to be the JSON text of a float value
+	textFloat map[int64]*Term
+	strFloat  map[*Term]*Term
 	havocUB int64 // while a callee's frame is havocked: upper bound for the regions of unknown pointers
 }
 
